@@ -117,6 +117,18 @@ func (p *Path) intrinsic(caller *frame, fn *ssa.Function, name string, args []Va
 			mode := map[string]int{"math.RoundToEven": 0, "math.Round": 1, "math.Ceil": 2, "math.Floor": 3, "math.Trunc": 4}[name]
 			return smt.FPRound(f, mode), true
 		}
+	case "math.Min", "math.Max":
+		// Go's special cases: a NaN operand gives NaN; infinities order as usual. (The sign of a
+		// zero result for Min(-0, +0) is not modelled: either zero is returned.)
+		x, okx := args[0].(*smt.Term)
+		y, oky := args[1].(*smt.Term)
+		if okx && oky && x.Sort.K == smt.SFP && y.Sort.K == smt.SFP {
+			pick := smt.FPLt(x, y)
+			if name == "math.Max" {
+				pick = smt.FPLt(y, x)
+			}
+			return smt.Ite(smt.Or(smt.FPIsNaN(x), smt.FPIsNaN(y)), smt.ConstFP(math.NaN()), smt.Ite(pick, x, y)), true
+		}
 	case "math.Abs":
 		if f, ok := args[0].(*smt.Term); ok && f.Sort.K == smt.SFP {
 			return smt.Ite(smt.FPLt(f, smt.ConstFP(0)), smt.FPNeg(f), f), true
